@@ -211,6 +211,7 @@ type Pkg struct {
 	HasState  bool   // c.state exists: grammar has state blocks or not optimized
 	HasMemo   bool   // p.memo exists: left recursion present or not optimized
 	Extra     map[string][]byte
+	InitInput []byte // parsed once while the package's variables are being initialised (see verifInitRes)
 }
 
 // Batch is a scratch module of packages plus main.
@@ -249,7 +250,38 @@ var verifSharedOpts = []Option{Entrypoint(""), Recover(true), AllowInvalidUTF8(f
 // verifTable: a program's table of options from which calls take prefixes (table[:k]...).
 var verifTable = []Option{Entrypoint(""), Recover(true), AllowInvalidUTF8(false), MaxExpressions(0), GlobalStore("t", 1), Recover(true), AllowInvalidUTF8(false), MaxExpressions(0)}
 
+// verifInitRes: a Parse call made while the package's variables are initialised, the way a program
+// does that keeps a parsed default in a package-level variable (var defaults = mustParse("...")).
+// The generated parser must be usable there: whatever it needs is initialised first by Go's
+// dependency order. The result is compared with the same call made at run time.
+var verifInitRes = verifInitCall()
+
+func verifInitCall() *mon.Result {
+	res := &mon.Result{ID: "init"}
+	func() {
+		defer func() {
+			if e := recover(); e != nil {
+				res.Panic = mon.CanonPanic(e)
+			}
+		}()
+		val, err := Parse("", []byte({{printf "%q" .InitInput}}), MaxExpressions(20000))
+		res.Val = mon.Canon(val)
+		if err == nil {
+			res.ErrNil = true
+		} else {
+			res.ErrStr = err.Error()
+		}
+	}()
+	return res
+}
+
 func verifRun(c *mon.Case) *mon.Result {
+	if c.InitProbe {
+		r := verifInitCall() // the same call again, now that initialisation is over
+		r.ID = c.ID
+		r.Init = verifInitRes
+		return r
+	}
 	if c.TableOpts > 0 && c.TableOpts <= len(verifTable) {
 		res := &mon.Result{ID: c.ID}
 		in := append([]byte{}, c.Input...)
